@@ -114,7 +114,7 @@ def run(ctx: Ctx) -> None:
     for i in range(n):
         backend = "sv" if i % 2 == 0 else "mps"
         na = rng.choice([2, 3, 4, 5])
-        spec = scen.sequence_spec(rng, na, scen.WF_KINDS[i % 5], scen.PHASE_KINDS[(i // 2) % 3], scen.DMM_KINDS[(i // 3) % 3], "none", rng.choice([20, 40, 60]))
+        spec = scen.sequence_spec(rng, na, scen.WF_KINDS[i % 5], scen.PHASE_KINDS[(i // 2) % 4], scen.DMM_KINDS[(i // 3) % 3], "none", rng.choice([20, 40, 60]))
         tau = TAUS[i % len(TAUS)]
         if tau == "phase_negate":
             # phi -> -phi maps H to its complex conjugate, i.e. to the TIME-REVERSED dynamics; it is a symmetry of the
